@@ -39,6 +39,7 @@ func verifHarnessC02() {
 	verifAssert(err == nil, "C02.open-err")
 	m := newVModel(len(kp.keys))
 	ops := vOpsFromMask(verifParam("ops"))
+	vPrefill(db, kp, m, "C02")
 	for step := 0; step < K; step++ {
 		db = vStep(db, wopts, kp, m, ops, "C02")
 	}
